@@ -319,6 +319,26 @@ LhsLaw == \A i \in 1..Len(LhsSeq) :
         /\ o.v.es[1] = ApplyBinOrSet(AllAsgOps[LhsSeq[i][2]], IntV(10), IntV(2)))
   \/ (PrintT(<<"LHSLAW", LhsSeq[i], o>>) /\ FALSE)
 
+\* A block is a scope however short it is: a cell declared in a block - also when the declaration is the block's ONLY
+\* statement - does not replace the enclosing binding; writes through the outer name after the block reach the outer cell
+\* and all its aliases.
+BlockShadow(k) ==
+  LET decl == CASE k \in {"block", "if", "else", "loop", "match"} -> <<Set("c", MutE(WInt, I(5)))>>
+                [] k = "block-destruct" -> <<Destruct(<<"c", "z">>, TupE(<<MutE(WInt, I(5)), I(0)>>))>>
+                [] k = "block-two" -> <<Set("c", MutE(WInt, I(5))), Asg("+=", V("c"), I(1))>>
+                [] k = "block-string-cell" -> <<Set("c", MutE(WStr, S(<<115>>)))>>
+      wrap == CASE k \in {"block", "block-destruct", "block-two", "block-string-cell"} -> <<Block(decl)>>
+                [] k = "if" -> <<If(Hide(WBool, B(TRUE)), Block(decl), NoneV)>>
+                [] k = "else" -> <<If(Hide(WBool, B(FALSE)), Block(<<Unit>>), Block(decl))>>
+                [] k = "loop" -> <<Loop(Block(decl \o <<Break>>))>>
+                [] k = "match" -> <<Match(Hide(WInt, I(1)), <<ArmTy("y", WInt, Block(decl))>>)>>
+  IN <<Set("c", MutE(WInt, I(0))), Set("d", V("c"))>> \o wrap \o <<Asg("+=", V("c"), I(1)), TupE(<<Deref(V("c")), Deref(V("d"))>>)>>
+BlockShadowSeq == <<"block", "block-destruct", "block-two", "block-string-cell", "if", "else", "loop", "match">>
+BlockShadowOut(i) == Outcome(Run(BlockShadow(BlockShadowSeq[i]), 2000))
+BlockShadowLaw == \A i \in 1..Len(BlockShadowSeq) :
+  \/ (BlockShadowOut(i).status = "value" /\ BlockShadowOut(i).v = TupV(<<IntV(1), IntV(1)>>))
+  \/ (PrintT(<<"BLOCKSHADOWLAW", BlockShadowSeq[i], BlockShadowOut(i)>>) /\ FALSE)
+
 WatchNames == <<"c", "other", "s0", "y1", "s1", "y2", "s2">>
 HSeq == SetToSeq(Hists)
 N == Len(HSeq)
@@ -370,8 +390,10 @@ Emit ==
         \o [i \in 1..Len(SelfSeq) |-> [id |-> "c13-self-holding-" \o SelfSeq[i], suite |-> "c13", prog |-> SelfProg(SelfSeq[i]),
                                        exp |-> SelfOut(i), watch |-> <<>>]]
         \o [i \in 1..Len(LhsSeq) |-> [id |-> "c13-target-before-value-" \o LhsSeq[i][1] \o "-" \o ToString(LhsSeq[i][2]), suite |-> "c13",
-                                      prog |-> LhsMoves(LhsSeq[i][1], AllAsgOps[LhsSeq[i][2]]), exp |-> LhsOut(i), watch |-> <<>>]])
-  /\ FreshCells /\ RhsLaw /\ WideLaw /\ SelfLaw /\ LhsLaw
+                                      prog |-> LhsMoves(LhsSeq[i][1], AllAsgOps[LhsSeq[i][2]]), exp |-> LhsOut(i), watch |-> <<>>]]
+        \o [i \in 1..Len(BlockShadowSeq) |-> [id |-> "c13-cell-declared-in-" \o BlockShadowSeq[i], suite |-> "c13",
+                                      prog |-> BlockShadow(BlockShadowSeq[i]), exp |-> BlockShadowOut(i), watch |-> <<>>]])
+  /\ FreshCells /\ RhsLaw /\ WideLaw /\ SelfLaw /\ LhsLaw /\ BlockShadowLaw
   /\ ndJsonSerialize(IOEnv.VERIF_OUT \o "/c13_neg_cases.ndjson",
         [i \in 1..Len(NegSeq) |-> [id |-> "c13-neg-" \o ToString(i), suite |-> "c13", negative |-> TRUE,
                                    prog |-> NegProg(NegSeq[i].n, NegSeq[i].al),
